@@ -1548,6 +1548,26 @@ def variant_lets(root, variant):
     return out
 
 
+def some_sources(pat, scrut):
+    """[(name bound by a `Some(name)` sub-pattern, the Option it takes apart)] for a pattern / scrutinee pair,
+    element by element when both are tuples"""
+    out = []
+    p = pat["pat"] if pat.get("k") == "PType" else pat
+    sc = strip(scrut) if isinstance(scrut, dict) else scrut
+    if p.get("k") == "PTuple" and isinstance(sc, dict) and sc.get("k") == "Tuple" and len(p["elems"]) == len(sc["elems"]):
+        for pe, se in zip(p["elems"], sc["elems"]):
+            out += some_sources(pe, se)
+        return out
+    if p.get("k") == "POr":
+        for c_ in p.get("cases", []):
+            out += some_sources(c_, scrut)
+        return out
+    b = some_binding(p)
+    if b and isinstance(sc, dict):
+        out.append((b, option_source(sc)))
+    return out
+
+
 def option_source(e):
     """`v.as_ref()` / `&v` / `v` / `v.as_mut()` / `v.as_deref()` -> 'v' (the Option being taken apart)"""
     e = strip(e)
